@@ -1007,6 +1007,11 @@ func setRange(n *Nodis, conn *redis.Conn, cmd redis.Command) {
 		return
 	}
 	value := []byte(cmd.Args[2])
+	if offset > 512*1024*1024-int64(len(value)) {
+		// as in Redis: without a limit one command makes the server allocate terabytes and the process is killed
+		conn.WriteError("ERR string exceeds maximum allowed size (512MB)")
+		return
+	}
 	execCommand(conn, func() {
 		conn.WriteInt64(n.SetRange(key, offset, value))
 	})
@@ -1052,7 +1057,8 @@ func setBit(n *Nodis, conn *redis.Conn, cmd redis.Command) {
 	}
 	key := cmd.Args[0]
 	offset, err := strconv.ParseInt(cmd.Args[1], 10, 64)
-	if err != nil || offset < 0 {
+	if err != nil || offset < 0 || offset >= 4*1024*1024*1024 {
+		// bit offsets end at 2^32-1 (512MB), as in Redis: a larger one made the server allocate terabytes
 		conn.WriteError("ERR offset value is not an integer or out of range")
 		return
 	}
